@@ -833,6 +833,26 @@ class Evaluator:
                 qn = _qual(r[0], r[1])
                 self._invoke(r[0], r[1], qn.rsplit(".", 1)[0], args, kw, o)
             elif args or kw:
+                # no __init__ of its own in the repository: a namedtuple base supplies the fields; any other outside base is not modelled
+                cnode = self.repo.modules[f.mod].classes.get(f.cls)
+                fields = None
+                outside = False
+                for b in (cnode.bases if cnode is not None else []):
+                    if isinstance(b, ast.Call) and isinstance(b.func, ast.Name) and b.func.id == "namedtuple" and len(b.args) == 2:
+                        fv = Folder(self.repo, f.mod).fold(b.args[1])
+                        if isinstance(fv, str):
+                            fv = fv.replace(",", " ").split()
+                        if isinstance(fv, (list, tuple)) and all(isinstance(x, str) for x in fv):
+                            fields = list(fv)
+                    elif not (isinstance(b, ast.Name) and (b.id == "object" or self.repo.resolve_name(f.mod, b.id))):
+                        outside = True
+                if fields is not None and len(args) + len(kw) == len(fields) and all(k in fields for k in kw):
+                    for name_, v_ in zip(fields, args):
+                        o.attrs[name_] = v_
+                    o.attrs.update(kw)
+                    return o
+                if outside or fields is not None:
+                    raise Undecided("constructor of %s comes from outside the repository" % f.cls)
                 raise Raised("TypeError", e)
             return o
         if isinstance(f, type):
